@@ -175,7 +175,8 @@ def rule_tokens(M):
     additive: (dest_index, frequency_flag, species_source_indices); general/ode: (dest_index, frequency_flag, param_flag, rhs)"""
     rules = None
     for it in M.__getstate__():
-        if isinstance(it, list) and it and all(type(r).__name__.endswith("Rule") for r in it): rules = it
+        if isinstance(it, list) and it and all(type(r).__name__ in ("AdditiveAssignmentRule", "GeneralAssignmentRule", "GeneralODERule") for r in it): rules = it
+        elif isinstance(it, list) and it and all(type(r).__name__.endswith("Rule") for r in it) and not type(it[0]).__module__.endswith("lineage"): raise ValueError("rule class " + type(it[0]).__name__)
     rules = rules or []
     toks = [str(len(rules))]
     for r in rules:
